@@ -279,18 +279,13 @@ func parent(c Check, tier string, seed uint64, only string) int {
 
 	agg := &aggregate{}
 	nsc := len(c.Gen(tier, seed))
-	if c.InProc {
-		// everything in this process, still crash-isolated per scenario by recover.
-		tmp := filepath.Join(runDir, "shard-0.jsonl")
-		code := child(c, tier, seed, "0/1", tmp, only)
-		if code != 0 {
-			return 2
-		}
-		agg.results = readResults(tmp)
-	} else {
+	{
 		shards := c.Shards
 		if shards == 0 {
 			shards = 14
+		}
+		if c.InProc {
+			shards = 1 // one child process running scenarios on Parallel goroutines
 		}
 		if shards > nsc && nsc > 0 {
 			shards = nsc
